@@ -303,8 +303,12 @@ func publicOfPrivate(k crypto.PrivateKey) (pkix.AlgorithmIdentifier, []byte, err
 			return pkix.AlgorithmIdentifier{}, nil, fmt.Errorf("unknown curve")
 		}
 		ob, _ := asn1.Marshal(oid)
+		// the public point is computed here from the scalar (d*G on the curve found above), not taken from what the
+		// parser under test put into the key: a key read with a wrong point must not pass as "the key of the certificate"
+		c := curveByOid(oid)
+		x, y := c.ScalarBaseMult(p.D.Bytes())
 		return pkix.AlgorithmIdentifier{Algorithm: hOidEc, Parameters: asn1.RawValue{FullBytes: ob}},
-			elliptic.Marshal(p.Curve, p.X, p.Y), nil
+			elliptic.Marshal(c, x, y), nil
 	}
 	return pkix.AlgorithmIdentifier{}, nil, fmt.Errorf("unsupported key type %T", k)
 }
